@@ -165,12 +165,21 @@ class Interp(object):
         self.memo = {}
 
     # -- path exploration --------------------------------------------------
+    def lock(self):
+        """Freeze the choices made so far on this path: the rest of the exploration only varies what
+        comes after this point (used to analyse one step after a fixed, feasible history)."""
+        self._lock_hit = True
+        if self.lock_pos is None:
+            self.lock_pos = self.pos
+
     def explore(self, thunk):
         prefix = []
         n = 0
+        self.lock_pos = None
         while True:
             self.choices = list(prefix)
             self.pos = 0
+            self._lock_hit = False
             self.events = []
             self.frames = []
             self.dirty = None
@@ -184,6 +193,7 @@ class Interp(object):
                 path = Path(self.events, 'raise', e, list(self.choices))
             except PathCut:
                 path = Path(self.events, 'cut', None, list(self.choices))
+            path.reached_lock = self._lock_hit
             yield path
             n += 1
             if n > self.MAX_PATHS:
@@ -192,9 +202,10 @@ class Interp(object):
                 self.budget_exceeded = True
                 return
             ch = list(self.choices)
-            while ch and ch[-1][0] >= ch[-1][1] - 1:
+            floor = self.lock_pos or 0
+            while len(ch) > floor and ch[-1][0] >= ch[-1][1] - 1:
                 ch.pop()
-            if not ch:
+            if len(ch) <= floor:
                 return
             ch[-1] = (ch[-1][0] + 1, ch[-1][1])
             prefix = ch
